@@ -386,6 +386,9 @@ RD_REDEF = {
     'G': '<xs:group name="G"><xs:sequence><xs:group ref="t:G"/><xs:element name="h" type="xs:int"/></xs:sequence></xs:group>',
     'AG': '<xs:attributeGroup name="AG"><xs:attributeGroup ref="t:AG"/><xs:attribute name="q" type="xs:int"/></xs:attributeGroup>',
 }
+RD_REDEF['ZZ'] = ('<xs:complexType name="ZZ"><xs:complexContent><xs:extension base="t:ZZ"><xs:sequence><xs:element name="z" type="xs:int"/>'
+                  '</xs:sequence></xs:extension></xs:complexContent></xs:complexType>')     # not declared by the redefined schema
+RD_CODE = {'T': 1, 'ST': 2, 'G': 3, 'AG': 4, 'root': 5, 'ZZ': 6}
 RD_OVER = {
     'T': '<xs:complexType name="T"><xs:sequence><xs:element name="a" type="t:ST"/><xs:element name="b" type="xs:int"/></xs:sequence>'
          '<xs:attributeGroup ref="t:AG"/></xs:complexType>',
@@ -428,6 +431,20 @@ def rd_files(case, d):
     return files
 
 
+def rd_model_term(case):
+    """Redefine.assemble on the abstract arrangement: are the redefinitions accepted?"""
+    def decls(names):
+        return coq_list(['{| d_name := %s; d_deps := [] |}' % coq_N(RD_CODE[n]) for n in names])
+    order, cut = case['order'], case['cut']
+    if case['split'] == 'single':
+        doc = 'Doc %s []' % decls(order)
+    elif case['split'] == 'include':
+        doc = 'Doc %s [Doc %s []]' % (decls(order[:cut]), decls(order[cut:]))
+    else:
+        doc = 'Doc %s [Doc [] [Doc %s []]]' % (decls(order[:cut]), decls(order[cut:]))
+    return '(match assemble (%s) %s with Some _ => true | None => false end)' % (doc, decls(case['redefs']))
+
+
 def subject_redefine(case):
     import warnings
     import xmlschema
@@ -461,7 +478,9 @@ def check_redefine(ctx):
     variants = [('redefine', '1.0'), ('redefine', '1.1'), ('override', '1.1')]
     subsets = [['T'], ['ST'], ['G'], ['AG'], ['T', 'ST'], ['G', 'AG', 'ST'], ['T', 'ST', 'G', 'AG']]
     for kind, version in variants:
-        for redefs in (subsets if not ctx.quick() else rng.sample(subsets, 3)):
+        # (xs:redefine only) a component that the redefined schema does not declare: "not a redefinition"
+        extra = [['ZZ'], ['T', 'ZZ']] if kind == 'redefine' else []
+        for redefs in (subsets + extra if not ctx.quick() else rng.sample(subsets, 3) + extra[:1]):
             ref = {'kind': kind, 'version': version, 'redefs': redefs, 'spelling': 'base.xsd', 'order': names, 'split': 'single', 'cut': 0}
             group = [ref]
             for sp in RD_SPELL[1:]:
@@ -478,12 +497,27 @@ def check_redefine(ctx):
             cases.append(group)
     flat = [dict(c, n=i) for i, c in enumerate(c for g in cases for c in g)]
     impl = common.pool_map(subject_redefine, flat, procs=min(common.NPROC, 8))
+    model = common.coq_eval('C09r', 'From XV Require Import Base Staged Redefine.', '', [rd_model_term(c) for c in flat], shard=200)
     k = 0
     for group in cases:
         res = impl[k:k + len(group)]
+        mod = model[k:k + len(group)]
         k += len(group)
         ref_case, ref = group[0], res[0]
         what = 'xs:%s of %s (XSD %s)' % (ref_case['kind'], '+'.join(ref_case['redefs']), ref_case['version'])
+        if not all(mod) or 'ZZ' in ref_case['redefs']:
+            # the model refuses the redefinitions (a name that the redefined schema does not stage): every arrangement
+            # must refuse them as well
+            for c, r, m in zip(group, res, mod):
+                ctx.count(('redef', json.dumps(c, sort_keys=True)), nontrivial=True)
+                ctx.dist('arrangement', 'redefine of an undeclared component: ' + ('refused' if 'exc' in r else 'accepted'))
+                if m or 'exc' not in r or 'harness_exception' in r:
+                    ctx.violation('%s: location %r, base %s: the model %s the redefinitions, the schema build %s'
+                                  % (what, c['spelling'], c['split'], 'accepts' if m else 'refuses',
+                                     'fails: ' + r['exc'] if 'exc' in r else 'succeeds'),
+                                  {'kind': 'redefine', 'case': c, 'files': rd_files(c, '<dir>'), 'theorem': 'C09_redefine_arrangement'},
+                                  no_input=bool(m))
+            continue
         if 'exc' in ref or 'harness_exception' in ref:
             ctx.violation('%s: the reference arrangement does not build: %s' % (what, ref.get('exc') or ref.get('harness_exception')),
                           {'kind': 'redefine', 'case': ref_case, 'impl': ref}, no_input=True)
